@@ -222,6 +222,16 @@ fn eval_det(t: &mut Toks) -> R<String> {
                 }
             })
         }
+        "trilines" => {
+            // constrained Delaunay triangulation of a line collection with hundreds of lines, several of which cross:
+            // the order in which crossings are split must not depend on scheduling
+            let g = t.geom()?;
+            let mls = match g { Geometry::MultiLineString(m) => m, _ => return Err("trilines wants MLS".into()) };
+            twice(&|h| match mls.constrained_outer_triangulation(DelaunayTriangulationConfig::default()) {
+                Ok(ts) => h.tris(&ts),
+                Err(e) => h.str(&format!("{}", e)),
+            })
+        }
         "tristitch" => {
             // constrained triangulation followed by stitching it back together
             let a = mpoly_in(t)?;
@@ -840,6 +850,17 @@ fn gen_case(rng: &mut Rng, index: u64) -> String {
                     Geometry::MultiPoint(MultiPoint(many_points(rng, n, 50).into_iter().map(Point).collect()))
                 }
             };
+            if rng.chance(1, 4) {
+                // 130 … 400 horizontal lines crossed by a few slanted ones
+                let n = rng.range(130, 400);
+                let mut ls: Vec<LineString<f64>> = (0..n).map(|i| LineString(vec![c(0, i), c(20, i)])).collect();
+                for _ in 0..rng.range(2, 4) {
+                    let (x0, x1) = (rng.range(1, 19), rng.range(1, 19));
+                    let at = rng.below(ls.len() as u64 + 1) as usize;
+                    ls.insert(at, LineString(vec![Coord { x: x0 as f64 + 0.5, y: -1.0 }, Coord { x: x1 as f64 + 0.25, y: n as f64 + 1.0 }]));
+                }
+                return format!("C20.det trilines {}", proto::geom(&Geometry::MultiLineString(MultiLineString(ls))));
+            }
             // lon/lat-sized coordinates so that the geodesic measures are meaningful
             let kind = if rng.chance(1, 2) { "pariter" } else { "measures" };
             format!("C20.det {} {}", kind, proto::geom(&g))
